@@ -53,9 +53,13 @@ Proof.
     exists U, G. repeat split; auto. apply phase_eqb_sound; exact H.
   - destruct (circuit _ _) as [U|] eqn:Ec; [|discriminate].
     destruct (mov_in _) as [Inp|] eqn:Ei; [|discriminate].
+    apply andb_true_iff in H. destruct H as [H H3].
     apply andb_true_iff in H. destruct H as [H1 H2].
     apply meqb_eq in H1. unfold unit_vec in H2. apply meqb_eq in H2.
-    exists U, Inp, (mov_phi0 (r_place r) (mmul U Inp)). repeat split; auto.
+    exists U, Inp, (mov_phi0 (r_place r) (mmul U Inp)).
+    split; [reflexivity|]. split; [reflexivity|].
+    split; [destruct (r_place r); reflexivity|].
+    split; [exact H3|]. split; [exact H1 | exact H2].
 Qed.
 
 Lemma rows_ok_sound : forall rows, forallb row_ok rows = true ->
@@ -140,4 +144,12 @@ Lemma opt_phase_eqb_sound : forall A B, opt_phase_eqb A B = true ->
 Proof.
   intros [U|] B H; cbn in H; [|discriminate].
   exists U. split; [reflexivity | apply phase_eqb_sound; exact H].
+Qed.
+
+(* a table that contains a MOV row (used for non-vacuity statements) *)
+Definition is_mov (r : nvrow) : bool := match r_gate r with VMov => true | _ => false end.
+Lemma has_mov_row : forall rows, existsb is_mov rows = true -> exists r, In r rows /\ r_gate r = VMov.
+Proof.
+  intros rows H. apply existsb_exists in H. destruct H as [r [Hin Hm]].
+  exists r. split; [exact Hin|]. unfold is_mov in Hm. destruct (r_gate r); try discriminate. reflexivity.
 Qed.
